@@ -58,15 +58,19 @@ Definition refs (p : hpc) : list N :=
   | D_Size n => [n] | D_Load n _ => [n] | D_Or n _ => [n]
   | G_Start n b => [n; b] | G_Iter n b prev iter => [n; b; prev; ptr iter] | G_Cas n b prev iter nx => [n; b; prev; ptr iter; ptr nx]
   | D_Assert n => [n] | D_Load2 n => [n] | D_Xchg n v => [n; ptr v]
+  | R_Size old _ _ => [old] | R_Cas old _ _ _ => [old]
+  | RG_Start new b old => [new; b; old] | RG_Iter new b old prev iter => [new; b; old; prev; ptr iter] | RG_Cas new b old prev iter nx => [new; b; old; prev; ptr iter; ptr nx]
+  | R_Assert old => [old]
   | _ => []
   end.
 Definition mine (p : hpc) : option N :=
   match p with
   | A_Size n _ _ | A_Start n _ _ | A_Iter n _ _ _ _ | A_Dup n _ _ _ _ _ | A_Cas n _ _ _ _ | A_Gc n _ _ _ _ _ => Some n
+  | R_Size _ n _ | R_Cas _ n _ _ => Some n
   | _ => None
   end.
 Fixpoint adds (l : list hop) : list N :=
-  match l with [] => [] | OAdd n _ _ :: r => n :: adds r | _ :: r => adds r end.
+  match l with [] => [] | OAdd n _ _ :: r => n :: adds r | OReplaceFound n :: r => n :: adds r | _ :: r => adds r end.
 Definition future (s : st) t : list N := match mine (PCr s t) with Some n => [n] | None => [] end ++ adds (TODOr s t).
 
 (* facts a thread relies on that mention the current memory *)
@@ -80,6 +84,11 @@ Definition LIs (s : st) (p : hpc) : Prop :=
       is_removed iter = false /\ ptr iter <> 0 /\ is_removed nx = true /\
       ptr (nxw s (ptr iter)) = ptr nx /\ is_removed (nxw s (ptr iter)) = true
   | G_Iter _ _ _ iter => is_removed iter = false /\ ptr iter <> 0
+  | R_Cas _ new onext _ => is_removed onext = false /\ nxw s new = onext
+  | RG_Iter _ _ _ _ iter => is_removed iter = false /\ ptr iter <> 0
+  | RG_Cas _ _ _ _ iter nx =>
+      is_removed iter = false /\ ptr iter <> 0 /\ is_removed nx = true /\
+      ptr (nxw s (ptr iter)) = ptr nx /\ is_removed (nxw s (ptr iter)) = true
   | _ => True
   end /\
   match p with
@@ -88,6 +97,7 @@ Definition LIs (s : st) (p : hpc) : Prop :=
   | D_Or n _ => n <> 0 /\ isB n = false
   | G_Start n _ | G_Iter n _ _ _ | G_Cas n _ _ _ _ | D_Assert n | D_Load2 n => n <> 0 /\ isB n = false /\ is_removed (nxw s n) = true
   | D_Xchg n v => n <> 0 /\ isB n = false /\ is_removed v = true /\ ptr v = ptr (nxw s n) /\ is_removed (nxw s n) = true /\ is_bucket v = false
+  | R_Size old _ _ | R_Cas old _ _ _ => old <> 0 /\ isB old = false
   | _ => True
   end.
 
@@ -102,6 +112,8 @@ Definition LIs3 (p : hpc) : Prop :=
   | D_Load n _ => n <> 0
   | G_Start _ b => isB b = true
   | G_Iter _ b prev _ | G_Cas _ b prev _ _ => isB b = true /\ prev <> 0
+  | RG_Start _ b _ => isB b = true
+  | RG_Iter _ b _ prev _ | RG_Cas _ b _ prev _ _ => isB b = true /\ prev <> 0
   | _ => True
   end.
 
@@ -210,6 +222,10 @@ Proof.
     apply (Hrm node H2); [apply Hcr; left; reflexivity|exact Hz].
   - (* D_Xchg *) intros [H0 (Hz & H1 & H2 & H3 & H4 & H5)]. split; [exact H0|]. split; [exact Hz|]. split; [exact H1|]. split; [exact H2|].
     destruct (Hrm node H4) as [P Q]; [apply Hcr; left; reflexivity|exact Hz|]. split; [rewrite P; exact H3|split; [exact Q|exact H5]].
+  - (* R_Cas *) intros [[H1 H2] H3]. split; [split; [exact H1|]|exact H3]. rewrite Hoth; [exact H2|]. apply Hpriv. reflexivity.
+  - (* RG_Cas *) intros [(H1 & H2 & H3 & H4 & H5) H6]. split; [|exact H6].
+    destruct (Hrm (ptr iter) H5) as [P Q]; [apply Hcr; right; right; right; right; left; reflexivity|exact H2|].
+    split; [exact H1|]. split; [exact H2|]. split; [exact H3|]. split; [rewrite P; exact H4|exact Q].
 Qed.
 
 Definition is_ni (ni : option N) (x : N) : bool := match ni with Some n => N.eqb x n | None => false end.
@@ -347,6 +363,30 @@ Proof.
   - exact Hnd.
   - rewrite Hpc. unfold LIs. split; [|exact I]. split; [exact Hrm|]. unfold nxw, Mm; cbn. apply upd_s.
   - rewrite Hpc. cbn. split; assumption.
+  - destruct Hfd as [H|[H1 H2]]; [left; exact H|right; split; [left; exact H1|exact H2]].
+Qed.
+(* entering the replacing cmpxchg: the plain store new->next = onext has just been done *)
+Lemma Inv2_into_rcas (s : st) t (p' : hst) old new onext sz :
+  Inv2 s -> hcur p' = R_Cas old new onext sz -> In new (future s t) ->
+  (forall y, In y ([old] ++ [found p']) -> y = 0 \/ insd s y) ->
+  (forall n, In n (fut_of p') -> In n (future s t)) -> NoDup (fut_of p') ->
+  is_removed onext = false -> old <> 0 -> isB old = false ->
+  (found p' = 0 \/ (insd s (found p') /\ isB (found p') = false)) ->
+  Inv2 (mkst2 (upd hloc hloc_eqb (smem _ _ s) (HNext new) onext) (tup (sthr _ _ s) t (mkts2 p'))).
+Proof.
+  intros HI Hpc Hin Hr Hf Hnd Hrm Ho0 HoB Hfd.
+  apply (Inv2_write s t p' _ new onext None HI).
+  - right; left; exact Hin.
+  - intros x Hx. apply upd_o. congruence.
+  - apply upd_s.
+  - intros x. reflexivity.
+  - intros n E; discriminate.
+  - intros Hi. destruct (J_fut s HI t new Hin) as (Hni & _). contradiction.
+  - rewrite Hpc. cbn [refs]. intros y Hy. destruct (Hr y Hy) as [H|H]; [left; exact H|right; left; exact H].
+  - exact Hf.
+  - exact Hnd.
+  - rewrite Hpc. unfold LIs. split; [|split; assumption]. split; [exact Hrm|]. unfold nxw, Mm; cbn. apply upd_s.
+  - rewrite Hpc. exact I.
   - destruct Hfd as [H|[H1 H2]]; [left; exact H|right; split; [left; exact H1|exact H2]].
 Qed.
 End REACH.
